@@ -275,6 +275,10 @@ pub struct SimChain {
     pub src_down: bool,
     /// Marks RPCs as crash points for the crash enumeration.
     pub rpc_crash_points: bool,
+    /// When set, every sendrawtransaction is checked against the tower's tables at that very moment:
+    /// the transaction must belong to an appointment or tracker whose owner is still registered.
+    pub send_monitor_db: Option<std::path::PathBuf>,
+    pub send_monitor_violations: Vec<String>,
 }
 
 impl SimChain {
@@ -303,6 +307,8 @@ impl SimChain {
             src_fail: None,
             src_down: false,
             rpc_crash_points: false,
+            send_monitor_db: None,
+            send_monitor_violations: Vec::new(),
         }
     }
 
@@ -604,6 +610,11 @@ impl SimChain {
                     }
                 };
                 let txid = tx.compute_txid();
+                if let Some(path) = self.send_monitor_db.clone() {
+                    if let Some(v) = crate::tower::send_is_unjustified(&path, &tx) {
+                        self.send_monitor_violations.push(v);
+                    }
+                }
                 let was_in_mempool = self.mempool.contains_key(&txid);
                 let r = self.submit(&tx);
                 let verdict = match &r {
